@@ -333,6 +333,14 @@ func genCost(proto string, r *Rand, tier string, emit func(sx.Sx)) {
 	}
 	for _, g := range growthShapes(proto) {
 		ps := pairs
+		if growthReply(proto, g.label) != nil {
+			// a whole exchange: the item is analysed, summarised and represented, whose fixed cost would hide a
+			// quadratic term at a few hundred repetitions
+			ps = [][2]int{{1000, 8000}}
+			if tier == "thorough" {
+				ps = append(ps, [2]int{4000, 32000})
+			}
+		}
 		for _, kk := range ps {
 			c := []sx.Sx{sx.A(g.side), sx.L(sx.B(g.build(kk[1]))), sx.A("eof"), sx.A(fmt.Sprintf("growth-%s=%d", g.label, kk[1])), sx.L(sx.B(g.build(kk[0])))}
 			if rp := growthReply(proto, g.label); rp != nil {
@@ -396,7 +404,10 @@ type growthShape struct {
 
 // the other half for the shapes that need a whole exchange (so that an item is emitted and analysed)
 func growthReply(proto, label string) []byte {
-	if proto == "http" && strings.HasPrefix(label, "distinct-") {
+	if proto != "http" {
+		return nil
+	}
+	if strings.HasPrefix(label, "distinct-") || label == "headers" || label == "same-cookie" || label == "chunks" || label == "query-params" {
 		if label == "distinct-response-headers" {
 			return []byte("GET /r HTTP/1.1\r\nHost: h\r\n\r\n")
 		}
